@@ -168,6 +168,23 @@ fn parse_ops(out: &mut Out, s: &[u8]) {
     out.case("li_roundtrip", &[s], || li_roundtrip(s));
 }
 
+/// from_parts with the variants in a random order, possibly duplicated
+fn from_parts_case(out: &mut Out, rng: &mut Rng, toks: &[String]) {
+    let mut args: Vec<Vec<u8>> = vec![toks[0].as_bytes().to_vec(), vec![], vec![]];
+    if args[0] == b"und" && rng.chance(1, 2) { args[0] = vec![]; }
+    let mut vs: Vec<Vec<u8>> = vec![];
+    for t in toks.iter().skip(1) {
+        let b = t.as_bytes();
+        if Script::from_bytes(b).is_ok() && args[1].is_empty() && vs.is_empty() && args[2].is_empty() { args[1] = b.to_vec(); }
+        else if Region::from_bytes(b).is_ok() && args[2].is_empty() && vs.is_empty() { args[2] = b.to_vec(); }
+        else { vs.push(b.to_vec()); }
+    }
+    for k in (1..vs.len()).rev() { let j = rng.below(k + 1); vs.swap(k, j); }
+    args.extend(vs);
+    let refs: Vec<&[u8]> = args.iter().map(|v| v.as_slice()).collect();
+    out.case("li_from_parts", &refs, || li_from_parts(&refs));
+}
+
 pub fn run(out: &mut Out, tier: &str, rng: &mut Rng) {
     let thorough = tier == "thorough";
     let full = gen::tokens_full();
@@ -203,21 +220,24 @@ pub fn run(out: &mut Out, tier: &str, rng: &mut Rng) {
         out.case("li_routes", &[&s], || li_routes(&s));
         let m = gen::mutate(rng, &s);
         parse_ops(out, &m);
-        // from_parts with the variants in a random order, possibly duplicated
-        let mut args: Vec<Vec<u8>> = vec![toks[0].as_bytes().to_vec(), vec![], vec![]];
-        if args[0] == b"und" && rng.chance(1, 2) { args[0] = vec![]; }
-        let mut vs: Vec<Vec<u8>> = vec![];
-        for t in toks.iter().skip(1) {
-            let b = t.as_bytes();
-            if Script::from_bytes(b).is_ok() && args[1].is_empty() && vs.is_empty() && args[2].is_empty() { args[1] = b.to_vec(); }
-            else if Region::from_bytes(b).is_ok() && args[2].is_empty() && vs.is_empty() { args[2] = b.to_vec(); }
-            else { vs.push(b.to_vec()); }
-        }
-        for k in (1..vs.len()).rev() { let j = rng.below(k + 1); vs.swap(k, j); }
-        args.extend(vs);
-        let refs: Vec<&[u8]> = args.iter().map(|v| v.as_slice()).collect();
-        out.case("li_from_parts", &refs, || li_from_parts(&refs));
+        from_parts_case(out, rng, &toks);
         if i % 4 == 0 && pool.len() < 4000 { pool.push(s); }
+    }
+    out.comment("G3L: long identifiers (5-30 variants): parse, from_parts, ==/cmp/eq-str against the canonical text, tail edits");
+    let n = if thorough { 20_000 } else { 2_000 };
+    for _ in 0..n {
+        let mut toks = gen::wf_langid_tokens(rng);
+        for _ in 0..(5 + rng.below(26)) { toks.push(gen::rand_variant(rng)); }
+        let s = gen::render(rng, &toks);
+        parse_ops(out, &s);
+        out.case("li_into_parts", &[&s], || li_into_parts(&s));
+        out.case("li_routes", &[&s], || li_routes(&s));
+        from_parts_case(out, rng, &toks);
+        let canon = LanguageIdentifier::from_bytes(&s).map(|x| x.to_string()).unwrap_or_default().into_bytes();
+        out.case("li_eq_str", &[&s, &canon], || li_eq_str(&s, &canon));
+        out.case("li_cmp", &[&s, &canon], || li_cmp(&s, &canon));
+        let mut m = s.clone(); m.extend_from_slice(*rng.pick(&[&b"-*"[..], b"-abcdefghi", b"-abcd", b"--", b"-u", b"-1"]));
+        parse_ops(out, &m);
     }
     out.comment("C11: product domain for matches");
     let langs = ["en", "fr", "und"]; let scripts = ["", "Latn", "Cyrl"]; let regions = ["", "US", "419"];
@@ -253,5 +273,15 @@ pub fn run(out: &mut Out, tier: &str, rng: &mut Rng) {
         out.case("li_cmp", &[&a, &b], || li_cmp(&a, &b));
         let t = if rng.chance(1, 2) { LanguageIdentifier::from_bytes(&a).map(|x| x.to_string()).unwrap_or_default().into_bytes() } else { b.clone() };
         if std::str::from_utf8(&t).is_ok() { out.case("li_eq_str", &[&a, &t], || li_eq_str(&a, &t)); }
+    }
+    out.comment("C11/C12: near pairs (one or two characters apart; 8-letter languages with a shared stem)");
+    let n = if thorough { 200_000 } else { 20_000 };
+    for _ in 0..n {
+        let (ta, tb) = gen::near_langid_pair(rng);
+        let (a, b) = (gen::render(rng, &ta), gen::render(rng, &tb));
+        out.case("li_cmp", &[&a, &b], || li_cmp(&a, &b));
+        out.case("li_cmp", &[&b, &a], || li_cmp(&b, &a));
+        out.case("li_matches", &[&a, &b, b"0", b"0"], || li_matches(&a, &b, false, false));
+        out.case("li_eq_str", &[&a, &b], || li_eq_str(&a, &b));
     }
 }
